@@ -127,15 +127,18 @@ theorem safe_afterResults (s : St) (hloop : ctlBits (csig s.cpc) = ctlBits (csig
       WrkV (csig pc').en _ _ _
     rw [hpc']
     exact ⟨hc', hd', ho', hw'⟩
-  unfold afterResults
-  simp only []
-  split
-  · split
-    · split
-      · exact key .flowClear rfl
-      · exact key .flowIsSet rfl
-    · exact key .rdSending rfl
-  · exact key .rdSending rfl
+  obtain ⟨c', heq, hcl⟩ := afterResults_pc s
+  rw [heq]
+  rcases hcl with h | h | h | ⟨wid, h⟩ <;> subst h <;> exact key _ rfl
+
+/-- leaving the mid-call `until_all_ready()`: only the pc changes, within the loop -/
+theorem safe_afterBatch (s : St) (h : SafeInv s) (hloop : ctlBits (csig s.cpc) = ctlBits (csig .rdSending))
+    (hbt : s.batch = []) : SafeInv (afterBatch s) := by
+  obtain ⟨c', heq, hcl⟩ := afterBatch_eq s
+  rw [heq]
+  refine safe_cpc' s h c' ?_ (fun _ => hbt) ?_
+  · rw [hloop]; rcases hcl with h | h | h <;> subst h <;> rfl
+  · intro he; rcases hcl with h | h | h <;> subst h <;> simp [csig, enPc] at he
 
 /-! ## the position in the join loop of `__exit__` -/
 
